@@ -287,7 +287,7 @@ func init() {
 		RealStub: map[string]string{"rtmr.ExtendDigestClient / ExtendEventLogClient": "real", "go-configfs-tsm rtmr.ExtendDigest": "real", "configfs-tsm": "stub (world.TSM model)"},
 		Runs: func(tier string) int {
 			if tier == "thorough" {
-				return 30000
+				return 200000
 			}
 			return 3000
 		},
